@@ -44,7 +44,12 @@ RULE = ('function specs kind in {lin, aff, cubic(flat root), sat(urating), kink,
         'size -> percent_point, and the states from_dict / pickle / get_instance clone / restored-used-refitted, each '
         'compared (bit for bit or within twice the solver tolerance, never raising) with a FRESH model fitted on the '
         'data the instance holds; classes kde.percent_point:<method>:depends-on-fit-history and '
-        ':depends-on-state:<state>')
+        ':depends-on-state:<state>. Quick search also: option combinations (eps_m only / eps_a only / both / neither, '
+        'maxiter; tol / maxiter for bisect) on narrow brackets near zero and slowly converging functions with the '
+        'tolerance the caller is entitled to (documented defaults for what was not passed); one float64 bracket '
+        'table solved 2-3 times (table untouched, same roots); output form (scalar brackets of chandrupatla give a '
+        'scalar numpy.float64 equal to lane 0 of the one-element vector; vector calls give a float64 ndarray of the '
+        'shape of the brackets)')
 PARTIAL = ['chandrupatla_converges_partial: termination of every lane within the iteration cap is not a theorem '
            '(the IQI step has no proved rate); proved instead: success, containment, sign bracket, smaller-|f| end, '
            'exact zero when fm == 0, a root within |a-b| of the result. The cap is exercised by the tie; the search '
@@ -1383,6 +1388,138 @@ def oracle_scalar(lane, stype):
     return fails
 
 
+def oracle_shared_table(method, lanes, rounds=3):
+    """one float64 bracket table shared by several solves (the way a caller keeps its bracket arrays): after every
+    solve the table is untouched bit for bit, no round rejects the (valid) brackets, every round returns the roots
+    of the first round bit for bit."""
+    from copulas.optimize import bisect, chandrupatla
+    fn = bisect if method == 'bisect' else chandrupatla
+    lo, hi = arrays(lanes)
+    lo0, hi0 = lo.copy(), hi.copy()
+    first = None
+    for k in range(rounds):
+        f = VecFn(lanes)
+        try:
+            with np.errstate(all='ignore'):
+                res = np.array(fn(f, lo, hi), dtype=float)
+        except Exception as e:  # noqa
+            return [(f'{method}:shared-bracket-table:round-{min(k + 1, 2)}-rejected',
+                     {'round': k + 1, 'raises': repr(e)[:120], 'n': len(lanes),
+                      'xmin_now': lo[:3].tolist(), 'xmin_given': lo0[:3].tolist(), 'lane': lanes[0]},
+                     'a valid bracket table can be solved again')]
+        if not (lo.dtype == lo0.dtype and all(same_bits(a, b) for a, b in zip(lo, lo0)) and
+                all(same_bits(a, b) for a, b in zip(hi, hi0))):
+            i = next(i for i in range(len(lanes)) if not (same_bits(lo[i], lo0[i]) and same_bits(hi[i], hi0[i])))
+            return [(f'{method}:shared-bracket-table:brackets-modified',
+                     {'round': k + 1, 'lane': lanes[i], 'bracket_given': [float(lo0[i]), float(hi0[i])],
+                      'bracket_after': [float(lo[i]), float(hi[i])], 'n': len(lanes)},
+                     "the caller's xmin / xmax arrays are not written")]
+        if first is None:
+            first = res
+        elif not all(same_bits(a, b) for a, b in zip(res, first)):
+            i = next(i for i in range(len(lanes)) if not same_bits(res[i], first[i]))
+            return [(f'{method}:shared-bracket-table:rounds-differ',
+                     {'round': k + 1, 'lane': lanes[i], 'first': float(first[i]), 'now': float(res[i])},
+                     'solving the same table again gives the same roots')]
+    return []
+
+
+SCALAR_FORM_TYPES = ('pyfloat', 'pyint', 'np.float64', 'np.int64', '0d-float64')
+
+
+def _form_problems(x):
+    """what a scalar root must be usable as: the clean tree returns np.float64."""
+    import json
+    bad = []
+    if isinstance(x, np.ndarray):
+        bad.append(f'is an ndarray of shape {x.shape}')
+    if not isinstance(x, float):
+        bad.append(f'{type(x).__name__} is not a float')
+    if np.ndim(x) != 0:
+        bad.append(f'ndim {np.ndim(x)}')
+    if type(x) is not np.float64:
+        bad.append(f'type {type(x).__name__}, not numpy.float64')
+    for what, fn in (('format(x, ".6f")', lambda: format(x, '.6f')), ('json.dumps(x)', lambda: json.dumps(x)),
+                     ('hash(x)', lambda: hash(x))):
+        try:
+            fn()
+        except Exception as e:  # noqa
+            bad.append(f'{what} raises {type(e).__name__}')
+    return bad
+
+
+def oracle_form(lane, maxiter=None, count=None):
+    """output form.  Scalar brackets (Python float, Python int, np.float64, np.int64, 0-d float64 array) of
+    chandrupatla give back a scalar np.float64 - an instance of float, ndim 0, not an ndarray, formattable,
+    JSON-serialisable, hashable - whose value is lane 0 of the one-element-vector call; vector calls of both solvers
+    (float64 and integer bracket arrays) give back a float64 ndarray of the shape of the brackets.  `lane` must have
+    integer-valued ends.  (bisect does not accept scalar brackets as found: counted.)"""
+    from copulas.optimize import bisect, chandrupatla
+    fails = []
+    kw = {} if maxiter is None else {'maxiter': maxiter}
+    conv = {'pyfloat': float, 'pyint': int, 'np.float64': np.float64, 'np.int64': np.int64,
+            '0d-float64': lambda v: np.array(float(v))}
+    with np.errstate(all='ignore'):
+        vec = chandrupatla(VecFn([lane]), *arrays([lane]), **kw)
+    for st in SCALAR_FORM_TYPES:
+        try:
+            with np.errstate(all='ignore'):
+                x = chandrupatla(ScalarFn(lane), conv[st](lane[3]), conv[st](lane[4]), **kw)
+        except Exception as e:  # noqa
+            fails.append((f'chandrupatla:scalar:{st}:valid-bracket-rejected', {'lane': lane, 'raises': repr(e)[:120]},
+                          'a valid scalar bracket is solved'))
+            continue
+        bad = _form_problems(x)
+        if bad:
+            fails.append((f'chandrupatla:scalar:{st}:output-form',
+                          {'lane': lane, 'returned': repr(x)[:80], 'type': type(x).__name__, 'problems': bad,
+                           'options': kw},
+                          'a scalar bracket gives back a scalar numpy.float64 (as the unchanged code does), usable as a float'))
+            continue
+        if not same_bits(float(x), float(vec[0])):
+            # the scalar branch squares through libm pow: an ulp-level branch flip is legitimate, a real
+            # difference is not
+            t = 2 * asked_tol('chandrupatla', lane, kw)
+            if count:
+                count('form:scalar-differs-from-vector-within-tolerance(pow path)')
+            if not abs(float(x) - float(vec[0])) <= t:
+                fails.append((f'chandrupatla:scalar:{st}:scalar-vs-vector',
+                              {'lane': lane, 'scalar': float(x), 'vector': float(vec[0])},
+                              'scalar input behaves like a one-element vector'))
+    # bisect with scalar brackets: not accepted as found (AttributeError / TypeError): counted only
+    for st in ('pyfloat', 'np.float64', '0d-float64'):
+        try:
+            with np.errstate(all='ignore'):
+                x = bisect(ScalarFn(lane), conv[st](lane[3]), conv[st](lane[4]), **kw)
+            if count:
+                count(f'form:bisect-scalar:{st}:accepted')
+            bad = _form_problems(x)
+            if bad:
+                fails.append((f'bisect:scalar:{st}:output-form', {'lane': lane, 'returned': repr(x)[:80], 'problems': bad},
+                              'a scalar bracket gives back a scalar numpy.float64'))
+        except (AttributeError, TypeError) as e:
+            if count:
+                count(f'form:bisect-scalar:{st}:not-accepted({type(e).__name__})')
+    # vector calls
+    for method, fn in (('bisect', bisect), ('chandrupatla', chandrupatla)):
+        for dt in ('float64', 'int64', 'int32'):
+            for n in (1, 3):
+                lo, hi = arrays([lane] * n, dt)
+                try:
+                    with np.errstate(all='ignore'):
+                        r = fn(VecFn([lane] * n), lo, hi, **kw)
+                except Exception as e:  # noqa
+                    fails.append((f'{method}:valid-bracket-rejected:dtype={dt}', {'lane': lane, 'raises': repr(e)[:120]},
+                                  'a valid bracket is solved'))
+                    continue
+                if not (isinstance(r, np.ndarray) and r.dtype == np.float64 and r.shape == lo.shape):
+                    fails.append((f'{method}:vector-output-form',
+                                  {'lane': lane, 'bracket_dtype': dt, 'n': n, 'type': type(r).__name__,
+                                   'dtype': str(getattr(r, 'dtype', None)), 'shape': list(np.shape(r)), 'options': kw},
+                                  'a bracket vector gives back a float64 ndarray of the same shape'))
+    return fails
+
+
 def search(ctx, deep):
     rng = ctx.rng('search')
     nb = 40 * (10 if deep else 1)
@@ -1451,6 +1588,23 @@ def search(ctx, deep):
                 checked += 1
             ctx.count(f'search:options:{method}:{combo_label(method, params)}:' + ('ok' if not fails else 'FAILS'))
             report(method, lanes, params, fails)
+    # one bracket table shared by repeated solves; output form of scalar and vector calls
+    frng = ctx.rng('search-form')
+    for b in range(12 * (8 if deep else 1)):
+        lanes = gen_batch(ctx, frng, True, frng.choice([1, 2, 3, 8, 40])) if b % 2 else \
+            gen_options_batch(ctx, frng, frng.choice([1, 2, 5, 17]))
+        for method in ('bisect', 'chandrupatla'):
+            checked += 1
+            fails = oracle_shared_table(method, lanes, 3 if b % 3 else 2)
+            ctx.count(f'search:shared-table:{method}:' + ('ok' if not fails else 'FAILS'))
+            report(method, lanes, {'shared_table': 3 if b % 3 else 2}, fails)
+        lane, pos = gen_lane_int(frng, ORACLE_KINDS)
+        mi = [None, None, 1, 2, 100][b % 5]
+        checked += 1
+        fails = oracle_form(lane, mi, ctx.count)
+        ctx.count('search:output-form:' + ('ok' if not fails else 'FAILS'))
+        for cls, obs, req in fails:
+            report(cls.split(':')[0], [lane], {'form': True, 'maxiter': mi}, [(cls, obs, req)])
     # brackets in other representations: float32 / int64 / int32 arrays, scalars of every type
     drng = ctx.rng('search-dtype')
     for b in range(len(DTYPE_STREAM) * 4 * (10 if deep else 1)):
@@ -1518,6 +1672,10 @@ def replay(ctx, payload):
         return False
     if inp.get('invalid'):
         return bool(oracle_invalid(method, lanes, inp['invalid']))
+    if (inp.get('params') or {}).get('shared_table'):
+        return bool(oracle_shared_table(method, lanes, int(inp['params']['shared_table'])))
+    if (inp.get('params') or {}).get('form'):
+        return bool(oracle_form(lanes[0], inp['params'].get('maxiter')))
     if (inp.get('params') or {}).get('scalar'):
         st = inp['params']['scalar']
         return bool(oracle_scalar(lanes[0], st if st in SCALAR_TYPES else 'pyfloat'))
